@@ -27,6 +27,7 @@ RULE = ("One evaluation = one seeded execution of 2-3 real clients driven by "
 RULE += (' The words of an interactive code entry may be entered after the wormhole closed or failed under the prompt.')
 RULE += (" A when_wordlist_is_available() Deferred's callback calls back into the library (completions, choose_words or close).")
 RULE += (' A ninth configuration makes both sides dilate the moment the verifier is known, on a reordering server.')
+RULE += (" A tenth configuration holds long conversations (66..100 messages each way) and then loses the server connection (the whole mailbox is replayed).")
 RULE += (" A third of the paired sessions linger after the first message and lose their server connection once more before closing.")
 RULE += (" In a third of the runs the server may be restarted with a welcome error while sessions are under way (the welcome of every later connection carries an error).")
 LEVEL_TEXT = ("Seeded exploration of the composed client (13 mailbox machines "
@@ -60,10 +61,14 @@ def configs(tier):
     # decrypted, on a server that does not keep the order of messages
     out.append({"spake": "stub", "dilate": True, "reorder_heavy": True,
                 "variant": "same", "dilate_early": True})
+    # the tenth: long conversations (more than 64 phases each way), then a
+    # reconnect with the whole mailbox replayed
+    out.append({"spake": "stub", "variant": "same", "long_session": True})
     return out
 
 
 DILATE_EARLY = [False]
+LONG_SESSION = [False]
 
 
 def grammar(tape, c, code_ops, other, dilate, pairable=True):
@@ -134,7 +139,15 @@ def grammar(tape, c, code_ops, other, dilate, pairable=True):
             # the moment the first peer message has decrypted
             out.insert(dpos, ("wait_event_or_steps", "verifier",
                               300 + tape.choose(300, "dvw")))
-    if pairable and tape.choose(3, "bounce") == 0:
+    if pairable and LONG_SESSION[0]:
+        # a chatty application: 66..100 messages, then the connection to the
+        # server drops and comes back (the server replays the whole mailbox)
+        out += [("wait_event_or_steps", "verifier", 300)]
+        out += [("send", b"%s-long-%d" % (c.name.encode(), i))
+                for i in range(66 + tape.choose(35, "long_n"))]
+        out += [("wait_all_delivered", other), ("bounce",),
+                ("wait_steps", 60 + tape.choose(120, "b_w3"))]
+    elif pairable and tape.choose(3, "bounce") == 0:
         # an established session that lingers: the connection to the server
         # drops and comes back long after the key was confirmed
         out += [("wait_event_or_steps", "message", 300),
@@ -174,6 +187,7 @@ DILATE_LISTEN = [False]
 def run_one(seed, tape, opts):
     DILATE_LISTEN[0] = bool(opts.get("dilate_listen"))
     DILATE_EARLY[0] = bool(opts.get("dilate_early"))
+    LONG_SESSION[0] = bool(opts.get("long_session"))
     variant = opts.get("variant", "same")
     welcome = {"error": "sim says no"} if variant == "welcome_error" else {}
     w = MailboxWorld(tape, dict(opts, late_words=True, wordlist_cb=True),
